@@ -1,4 +1,4 @@
 INIT Init
 NEXT Next
-INVARIANTS RoundTrip TruncRejected Emit
+INVARIANTS RoundTrip TruncRejected DanglingRejected Emit
 CHECK_DEADLOCK FALSE
